@@ -468,6 +468,7 @@ func genEncRec(r *Rng, mode string, p EncProfile) EncRec {
 	if r.Chance(30) {
 		cfg.Name = []string{"svc", "a.b", "Name-1"}[r.Intn(3)]
 	}
+	cfg.SameLayout = r.Chance(25)
 	if mode == "color" {
 		cfg.TagWidth = 1 + r.Intn(5)
 		cfg.MinWidth = []int{36, 36, 16, 50, 200, 165}[r.Intn(6)]
